@@ -673,6 +673,20 @@ static void f23_render (uint64_t idx) {
 static int f23_ninputs (uint64_t idx) { return 2; }
 static pinput f23_input (uint64_t idx, int i) { pinput p = {i ? -5 : 42, 17, -1, 0, 0}; return p; }
 
+/* =============================== F24: loops with loop-carried variables that the optimizer finds unreachable or whose inner branch it folds (constants known only after value numbering) =============================== */
+static uint64_t f24_count (int th) { return 2 * 2 * 2 * 4 * 2 * 2; }
+static void f24_render (uint64_t idx) {
+  static const char *K[] = {"5", "0", "c", "a"};
+  int l7 = idx % 2; idx /= 2; int l1 = idx % 2; idx /= 2; int k = idx % 4; idx /= 4; int br2 = idx % 2; idx /= 2; int br1 = idx % 2; int g = (int) (idx / 2);
+  begin_func ("i64:v0, i64:v5, i64:c, i64:i, i64:t, i64:u");
+  S ("  mov v0, 1\n  mov v5, 1\n  mov c, %d\n  %s L2, c\n", g, br1 ? "bt" : "bf");
+  if (l1) S ("L1:\n"); S ("  jmp L3\nL2:\n  mov i, 0\nL4:\n  %s L8, %s\n", br2 ? "bt" : "bf", K[k]);
+  if (l7) S ("L7:\n  jmp L9\n");
+  S ("L8:\n  add t, a, 3\n  mov v0, t\nL9:\n  subs u, v0, 1\n  mov v5, u\n  adds i, i, 1\n  blts L4, i, 2\nL3:\n  mul r, v0, 100\n  add r, r, v5\n  ret r\n"); end_func ();
+}
+static int f24_ninputs (uint64_t idx) { return 2; }
+static pinput f24_input (uint64_t idx, int i) { pinput p = {i ? 7 : 0, 0, -1, 0, 0}; return p; }
+
 int progfam_thorough;
 static const family FAMILIES[] = {
   {"F1a-ext-chains", f1a_count, f1a_render, in_intgrid_n, in_intgrid},
@@ -702,6 +716,7 @@ static const family FAMILIES[] = {
   {"F21-inlined-stack-areas", f21_count, f21_render, f21_ninputs, f21_input},
   {"F22-load-availability-across-blocks", f22_count, f22_render, f22_ninputs, f22_input},
   {"F23-laundered-alloca-address", f23_count, f23_render, f23_ninputs, f23_input},
+  {"F24-unreachable-loops", f24_count, f24_render, f24_ninputs, f24_input},
   /* thorough only, 1.5e8 programs: kept last so that a deadline cuts this family and no other */
   {"F3t-cfg3-full", f3t_count, f3t_render, f3_ninputs, f3_input},
 };
